@@ -9,17 +9,21 @@ a *strategy*:
                         no-op, recorded as `(tid, '!')`), afterwards the lowest runnable thread;
 * `Prefix(prefix)`    – follow a prefix of decisions, afterwards stay on the running thread while it can run
                         (used by `explore`, which enumerates ALL schedules of a scenario, fewest preemptions first);
-* `PCT(rng, depth, k)`– randomised priorities with `depth-1` priority change points (Burckhardt et al.).
+* `PCT(rng, depth, k)`– randomised priorities with `depth-1` priority change points (Burckhardt et al.);
+* `StopLine(a, k, b)` – thread `a` runs `k` steps, then `b` runs to completion, then the rest (stop-line enumeration);
+* `SoloFirst(t, s)`   – a sequential prologue thread `t`, then strategy `s`.
 
 Scheduling points come from two sources:
 
 * the **model's points**, by patching (no hooks in /repo): `MakoWorld` replaces `TemplateLookup._mutex` by an
   `InstrLock`, the collection and `_uri_cache` by instrumented subclasses of the real `dict`/`util.LRUCache`, `os.stat` /
   `os.path.isfile` as seen by `mako.lookup`, `Template` as seen by `mako.lookup`, the `memoized_property`
-  descriptors of `Template`, and the clocks (`time.time` in `mako.codegen`, `timeit.default_timer` in
-  `mako.util`);
+  descriptors of `Template`, `__import__` as seen by `mako.runtime` (the per-module import lock as an instrumented
+  lock; a test module's top level may call `module_point()`), and the clocks (`time.time` in `mako.codegen`,
+  `timeit.default_timer` in `mako.util`);
 * **every executed line of mako code** and every call into a generated template module (`sys.settrace` in the
-  worker threads), for the randomised schedules.
+  worker threads), for the randomised schedules; or every executed line of ONE mako source file
+  (`file_lines_predicate`), for the stop-line enumeration.
 
 A thread that wants the instrumented lock while it is held is *blocked* (not runnable).  Deadlock = some thread
 is unfinished and none is runnable; the scheduler then aborts every worker by raising `Abort` (a
